@@ -213,6 +213,34 @@ fn lock_case(seed: u64, lean: &mut Lean, hist: &mut std::collections::BTreeMap<S
     (fails, second_open_while_live, h)
 }
 
+/// C17 "after the last handle is dropped, background threads have stopped": dropping the database
+/// must terminate even if the last worker leaves while the (bounded) worker channel is full of the
+/// `Close` messages the dropping thread keeps sending (finding F21)
+fn drop_probe() -> Option<Failure> {
+    use std::sync::atomic::{AtomicBool, Ordering};
+    use std::sync::Arc;
+    let scratch = Scratch::new("f21");
+    let dir = scratch.join("db");
+    let hold = Arc::new(AtomicBool::new(true));
+    let h2 = hold.clone();
+    fjall::verif::pause::set(Some(Arc::new(move |name: &'static str| {
+        if name == "worker.closing" { while h2.load(Ordering::Acquire) { std::thread::sleep(std::time::Duration::from_millis(1)); } }
+    })));
+    let db = fjall::Database::builder(&dir).worker_threads(1).open().ok()?;
+    let done = Arc::new(AtomicBool::new(false));
+    let d2 = done.clone();
+    let t = std::thread::spawn(move || { drop(db); d2.store(true, Ordering::Release); });
+    std::thread::sleep(std::time::Duration::from_millis(600));
+    hold.store(false, Ordering::Release);
+    let t0 = std::time::Instant::now();
+    while !done.load(Ordering::Acquire) && t0.elapsed() < std::time::Duration::from_secs(5) { std::thread::sleep(std::time::Duration::from_millis(5)); }
+    fjall::verif::pause::set(None);
+    if done.load(Ordering::Acquire) { let _ = t.join(); None } else {
+        std::mem::forget(scratch);
+        Some(Failure { kind: "impl-vs-oracle", detail: "drop(Database) did not return within 5 s after its last worker thread left (worker held for 600 ms after taking its Close message)".into() })
+    }
+}
+
 fn main() {
     let args: Vec<String> = std::env::args().collect();
     let mut replay = None;
@@ -234,6 +262,7 @@ fn main() {
     let mut samples = vec![];
     let mut hist = std::collections::BTreeMap::new();
     let mut cases = 0;
+    if replay.is_none() { if let Some(f) = drop_probe() { all.push((0, f)); } *hist.entry("drop-probe".to_string()).or_insert(0) += 1; }
     for cs in seeds {
         // even seeds: marker contents; odd seeds: lock orders (a replayed seed keeps its parity)
         let res = std::panic::catch_unwind(std::panic::AssertUnwindSafe(|| {
